@@ -12,6 +12,8 @@
 (*                                                                         *)
 (*   C13_..    property lane: TxTags of spec/OracleAdm.tla (the statement)  *)
 (*             on OBSERVED pre/post states, digests and response classes.  *)
+(*   C11_Halt  a panic escaped BeginBlock / EndBlock / Commit (or DeliverTx): *)
+(*             the chain halts (property C11).                             *)
 (*   STRICT_.. strict lane: observed post-state / response class differ    *)
 (*             from Apply(pre, event, args) of the model (drift).          *)
 (***************************************************************************)
@@ -96,13 +98,15 @@ Next ==
               same == [all |-> SameAll(D.dg, line.dg), butNonce |-> SameButNonce(D.dg, line.dg)]
               fin  == {f \in FIDS : line.st.next[ToString(f)] > D.next[ToString(f)]}
               tags == TxTags(S, post, a, line.res, G, same) \cup StrictTx(S, post, a, line) \cup
-                      T(~Alien(line.st.nonce) /\ ~Alien(line.st.cnonce), "C13_AlienNonceEntry")
+                      T(~Alien(line.st.nonce) /\ ~Alien(line.st.cnonce), "C13_AlienNonceEntry") \cup
+                      T(~line.halt, "C11_Halt")
           IN /\ S' = post /\ G' = GStep(G, S, post, a, line.res, fin)
              /\ Emit(l, "Tx", tags)
         ELSE IF line.ev \in {"NextBlock", "Epoch", "ValOut"} THEN
           LET post == FromLog(line.st)
               r    == Apply(S, line.ev, line.a)
               tags == T(r.st = post, "STRICT_state_" \o line.ev) \cup T(r.res = line.res, "STRICT_result_" \o line.ev) \cup
+                      T(~line.halt, "C11_Halt") \cup
                       T(~Alien(line.st.nonce) /\ ~Alien(line.st.cnonce), "C13_AlienNonceEntry")
           IN /\ S' = post /\ G' = (IF line.ev = "ValOut" THEN G ELSE GBlock(G))
              /\ Emit(l, line.ev, tags)
